@@ -169,6 +169,40 @@ pub fn run_builder_case(regs: &[Reg], b: &[u8]) -> Result<Result<Vec<Vec<u8>>, D
     .map_err(|_| ())
 }
 
+/// like `run_builder_case`, but the item callback refuses the items selected by `mask` and the caller goes on
+/// asking for the remaining ones: every call must still be handed its own item's bytes, in order
+pub fn run_builder_case_refusing(regs: &[Reg], b: &[u8], mask: u64) -> Result<Option<Vec<Vec<u8>>>, ()> {
+    catch_unwind(AssertUnwindSafe(|| {
+        let mut builder = SszDecoderBuilder::new(b);
+        for r in regs.iter() {
+            let ok = match r {
+                Reg::Fixed(n) => builder.register_type_parameterized(true, *n),
+                Reg::Var => builder.register_type::<Vec<u8>>(),
+            };
+            if ok.is_err() {
+                return None;
+            }
+        }
+        let mut decoder = match builder.build() {
+            Ok(d) => d,
+            Err(_) => return None,
+        };
+        let mut seen: Vec<Vec<u8>> = Vec::new();
+        for k in 0..regs.len() {
+            let refuse = mask >> (k % 64) & 1 == 1;
+            let r: Result<u8, DecodeError> = decoder.decode_next_with(|s| {
+                seen.push(s.to_vec());
+                if refuse { Err(DecodeError::BytesInvalid("refused by the caller".into())) } else { Ok(0u8) }
+            });
+            if r.is_ok() == refuse {
+                return None;
+            }
+        }
+        Some(seen)
+    }))
+    .map_err(|_| ())
+}
+
 fn encode_items(regs: &[Reg], items: &[Vec<u8>], prefix: &[u8]) -> Vec<u8> {
     let mut buf = prefix.to_vec();
     let fixed: usize = regs.iter().map(|r| match r { Reg::Fixed(n) => *n, Reg::Var => 4 }).sum();
@@ -235,6 +269,12 @@ pub fn run_builder(ctx: &mut Ctx) {
                 // completeness oracle: every layout is accepted and yields the items back
                 let r = run_builder_case(&regs, &e);
                 ctx.out.r("C09", "builder", matches!(&r, Ok(Ok(got)) if *got == items), &["layout_accepted", "builder", &rs, &hex(&e)]);
+                ctx.out.r("C04", "builder", matches!(&r, Ok(Ok(got)) if *got == items), &["layout_accepted", "builder", &rs, &hex(&e)]);
+                // items refused by the caller do not disturb the ones after them
+                for mask in [1u64, 2, 5, 0xaaaa, u64::MAX] {
+                    let rr = run_builder_case_refusing(&regs, &e, mask);
+                    ctx.out.r("C09", "builder", matches!(&rr, Ok(Some(got)) if *got == items), &["items_in_order_when_some_are_refused", "builder", &rs, &hex(&e), &mask.to_string()]);
+                }
                 // manual encoder with a pre-filled buffer (C10)
                 let pre = vec![0xEE, 0x01];
                 let e2 = encode_items(&regs, &items, &pre);
